@@ -20,10 +20,13 @@ using PacketPtr = std::shared_ptr<ASAM::CMP::Packet>;
 // and any later use of the caller's buffer by returned packets
 inline std::vector<PacketPtr> decodeCopy(ASAM::CMP::Decoder& dec, const wire::Bytes& f)
 {
-    uint8_t* heap = new uint8_t[f.size() ? f.size() : 1];
+    // the frame ends exactly at the end of the block; its start rotates through all eight alignments
+    static thread_local unsigned turn = 0;
+    const size_t k = (turn++) % 8;
+    uint8_t* heap = new uint8_t[k + (f.size() ? f.size() : 1)];
     if (!f.empty())
-        memcpy(heap, f.data(), f.size());
-    auto v = dec.decode(heap, f.size());
+        memcpy(heap + k, f.data(), f.size());
+    auto v = dec.decode(heap + k, f.size());
     delete[] heap;
     return v;
 }
